@@ -214,17 +214,15 @@ def hidden_preacts(ub, x, c, act_name):
 
 
 def gen_configs(rng, quick):
-    """dims 1-4 x depth 0-3 x block_dim 1-4 x cond None/1/2/3 x activation: a fixed skeleton (every depth, every activation, both
-    condition modes) plus random draws; the quick tier keeps the number of distinct network structures (= XLA compilations) small."""
-    n = 12 if quick else 72
+    """dims 1-4 x depth 0-3 x block_dim 1-4 x cond None/1/2/3 x activation: the depths cycle (every depth in every run), the rest is
+    drawn (default LeakyTanh(3) with probability 0.4); the quick tier keeps the number of distinct network structures (= XLA
+    compilations) small."""
+    n = 10 if quick else 72
     cfgs = []
-    k = 0
-    while len(cfgs) < n:
-        depth = k % 4
-        act = ACTS[(k // 2) % len(ACTS)] if k % 3 else "default"
-        cond = None if k % 2 == 0 else int(rng.integers(1, 4))
-        cfgs.append(dict(dim=int(rng.integers(1, 5)), depth=depth, bd=int(rng.integers(1, 5)), cond=cond, act=act, key=int(rng.integers(0, 2**31 - 1))))
-        k += 1
+    for k in range(n):
+        act = "default" if rng.random() < 0.4 else ACTS[1 + int(rng.integers(0, len(ACTS) - 1))]
+        cond = None if rng.random() < 0.5 else int(rng.integers(1, 4))
+        cfgs.append(dict(dim=int(rng.integers(1, 5)), depth=k % 4, bd=int(rng.integers(1, 5)), cond=cond, act=act, key=int(rng.integers(0, 2**31 - 1))))
     return cfgs
 
 
